@@ -5,7 +5,7 @@
 package util
 
 //@ func ExtraDataForChain
-//@ props C01 C04 C14
+//@ props C01 C04 C14 C06 C07
 //@ pure
 //@ site tls.Marshal#1 as m
 //@ ensures [is-the-encoding] result0 == m.res0 && result1 == m.res1
@@ -13,7 +13,7 @@ package util
 //@ at m assert [certificate-chain] !isPrecert ==> typeof(m.val) == ct.CertificateChain && as(m.val, ct.CertificateChain).Entries == chain
 
 //@ func ExtraDataForChainHash
-//@ props C14 C04
+//@ props C14 C04 C06 C07
 //@ pure
 //@ site tls.Marshal#1 as m
 //@ ensures [is-the-encoding] result0 == m.res0 && result1 == m.res1
@@ -21,7 +21,7 @@ package util
 //@ at m assert [certificate-chain-hash] !isPrecert ==> typeof(m.val) == ct.CertificateChainHash && as(m.val, ct.CertificateChainHash).IssuanceChainHash == chainHash
 
 //@ func buildLogLeaf
-//@ props C01 C14 C04
+//@ props C01 C14 C04 C06 C07
 //@ pure
 //@ site tls.Marshal#1 as ml
 //@ site ExtraDataForChain#1 as ec
@@ -39,7 +39,7 @@ package util
 //@ at sha assert [hash-over-submitted-leaf-certificate] sha.data == cert.Data
 
 //@ func BuildLogLeaf
-//@ props C01 C14 C04
+//@ props C01 C14 C04 C06 C07
 //@ pure
 //@ site buildLogLeaf#1 as b
 //@ fresh result0
@@ -48,7 +48,7 @@ package util
 //@ at b assert [no-chain-hash] b.merkleLeaf == merkleLeaf && b.leafIndex == leafIndex && b.cert == cert && b.chain == chain && b.chainHash == nil && b.isPrecert == isPrecert
 
 //@ func BuildLogLeafWithChainHash
-//@ props C14 C04
+//@ props C14 C04 C06 C07
 //@ pure
 //@ site buildLogLeaf#1 as b
 //@ fresh result0
